@@ -213,6 +213,8 @@ def run(ctx, rep):
     from rules import c04_progress, c04_recursion
     c04_progress.run(ctx, rep)
     c04_recursion.run(ctx, rep)
+    c04_recursion.run_fanout(ctx, rep)
+    c04_recursion.run_depth(ctx, rep)
 
 
 CLIPPY_LINTS = ["unwrap_used", "expect_used", "panic", "todo", "unimplemented", "unreachable", "indexing_slicing", "string_slice"]
